@@ -1126,7 +1126,8 @@ func (d *Data) ScaleUpdating(scale uint8) bool {
 
 func (d *Data) AnyScaleUpdating() bool {
 	d.updateMu.RLock()
-	for scale := uint8(0); scale < d.MaxDownresLevel; scale++ {
+	// d.updates is indexed by scale 0..MaxDownresLevel; the lower-resolution levels are 1..MaxDownresLevel.
+	for scale := range d.updates {
 		if d.updates[scale] > 0 {
 			d.updateMu.RUnlock()
 			return true
